@@ -476,6 +476,28 @@ pub const TEMPLATES: &[Template] = &[
     ..T0
   },
   Template {
+    name: "generated-dir-foo",
+    langs: JS,
+    severity: "info",
+    message: "foo call in generated code",
+    rule: "  pattern: foo($$$ARGS)\n",
+    files: &["**/gen code/**", "**/géné/**"],
+    valid: &["bar(1)"],
+    invalid: &["foo(1, 2)"],
+    ..T0
+  },
+  Template {
+    name: "not-in-generated-console",
+    langs: JS,
+    severity: "hint",
+    message: "console.log outside generated code",
+    rule: "  pattern: console.log($$$ARGS)\n",
+    ignores: &["**/gen code/**", "géné/**"],
+    valid: &["log(1)"],
+    invalid: &["console.log(1)"],
+    ..T0
+  },
+  Template {
     name: "off-rule",
     langs: JS,
     severity: "off",
